@@ -29,14 +29,8 @@ where
     POut::Point:    Coordinate+Coordinate2D
 {
     // If either path is empty, short-circuit by returning the other
-    if path1.is_empty() {
-        return path2.iter()
-            .map(|path| POut::from_path(path))
-            .collect();
-    } else if path2.is_empty() {
-        return path1.iter()
-            .map(|path| POut::from_path(path))
-            .collect();
+    if path1.is_empty() || path2.is_empty() {
+        return vec![];
     }
 
     // Create the graph path from the source side
